@@ -58,6 +58,7 @@ pub struct Flags {
     pub quiet_phases: u32,
     pub refused: u32,
     pub hol_stall: bool,
+    pub iter_panicked: bool,
     pub hint_after_up_end: u32,
     pub processed: u64,
     pub cycles: u32,
@@ -137,6 +138,10 @@ pub struct Hist {
     pub suppress_refused: bool,
     /// children may panic in poll / in their destructor (C07 profile, join combinators)
     pub allow_panics: bool,
+    /// `len()` as last reported by the subject
+    pub last_len: Option<usize>,
+    /// the input iterator of the constructor was scripted to panic
+    pub iter_panics: bool,
 }
 
 pub fn msg_of(p: Box<dyn std::any::Any + Send>) -> String {
@@ -200,6 +205,8 @@ impl Hist {
             cut: None,
             suppress_refused: false,
             allow_panics: false,
+            last_len: None,
+            iter_panics: false,
         }
     }
 
@@ -449,6 +456,23 @@ impl Hist {
                 self.check_obs("construct");
                 true
             }
+            Err(_) if self.iter_panics => {
+                // the input iterator panicked half-way (scripted) and the unwind was caught:
+                // every future the iterator held or had already handed over must be gone
+                self.flags.iter_panicked = true;
+                for id in &ids {
+                    let (d, plain) = {
+                        let ks = self.w.kids.borrow();
+                        (ks[*id as usize].drops, ks[*id as usize].plain)
+                    };
+                    // (inputs without drop glue cannot be observed)
+                    if d == 0 && !plain {
+                        self.w.violation("C06", "input_leaked_on_constructor_unwind", format!("{}: the input iterator panicked, kid {id} was never dropped", self.desc));
+                    }
+                }
+                self.aborted = Some("scripted panic of the input iterator".into());
+                false
+            }
             Err(p) => {
                 let m = msg_of(p);
                 self.w.violation("C15", "constructor_panicked", format!("{} panicked: {m}", self.desc));
@@ -482,7 +506,16 @@ impl Hist {
                 return;
             }
         };
+        self.last_len = o.len;
         let w = &self.w;
+        // (the ordered variant counts parked outputs in len(), only running futures are capped)
+        if self.kind == Kind::Fub {
+            if let Some(l) = o.len {
+                if l > self.cap {
+                    w.violation("C15", "len_exceeds_capacity", format!("len() = {l} with capacity {} after {after} ({})", self.cap, self.desc));
+                }
+            }
+        }
         let n = self.held.len();
         let kind = self.kind;
         // expected number of items still to come, for the size-hint check
@@ -1171,6 +1204,8 @@ impl Hist {
             self.flags.refused += 1;
             return;
         }
+        // what the subject itself reported just before (self-consistency, needs no model)
+        let own_full = self.kind == Kind::Fub && self.last_len.map_or(false, |l| l >= self.cap) && self.cap > 0;
         world::beacon_phase(2);
         let r = catch_unwind(AssertUnwindSafe(|| subj.push(how, id)));
         world::beacon_phase(0);
@@ -1189,6 +1224,9 @@ impl Hist {
                 self.h(1);
                 if !accepts {
                     w.violation("C15", "accepted_when_full", format!("push of kid {id} accepted although the model says the subject is full ({})", self.desc));
+                }
+                if own_full {
+                    w.violation("C15", "accepted_at_reported_capacity", format!("push of kid {id} accepted although the subject had just reported len() = {:?} with capacity {} ({})", self.last_len, self.cap, self.desc));
                 }
                 self.accept(id, front);
                 if front {
@@ -1710,7 +1748,7 @@ impl Hist {
         }
     }
 
-    fn check_alloc(&mut self) {
+    pub fn check_alloc(&mut self) {
         if self.subj.is_none() {
             return;
         }
@@ -1868,7 +1906,16 @@ fn run_history_once(p: &Params, hist_index: u64) -> HistResult {
     let kind = p.kind.unwrap_or_else(|| *h.rng.pick(kinds));
     let small = p.small;
     // children (C07, C06) and outputs (C06) of the join combinators may panic
-    h.allow_panics = matches!(p.prop, 5 | 6 | 7) && !p.no_panics && (kind.is_join() || (p.prop == 5 && matches!(kind, Kind::Fub | Kind::Fu | Kind::Fob | Kind::Fo))) && h.rng.chance(1, 3);
+    let coll = matches!(kind, Kind::Fub | Kind::Fu | Kind::Fob | Kind::Fo);
+    h.allow_panics = !p.no_panics
+        && match p.prop {
+            6 | 7 => kind.is_join(),
+            5 | 8 => kind.is_join() || coll,
+            12 => coll,
+            15 => kind == Kind::Fub,
+            _ => false,
+        }
+        && h.rng.chance(1, if matches!(p.prop, 5 | 6 | 7) { 3 } else { 6 });
     if h.allow_panics && h.rng.chance(1, 2) {
         w.panic_outputs.set(true);
     }
@@ -1884,7 +1931,7 @@ fn run_history_once(p: &Params, hist_index: u64) -> HistResult {
     }
     let start = if kind.is_ordered() && (p.prop == 4 || h.rng.chance(1, 3)) { pick_start(&mut h.rng) } else { None };
     let (ctor, n_init) = match kind {
-        Kind::JoinAll | Kind::TryJoinAll => (Ctor::FromIter, if small { h.rng.range(0, 6) } else { *h.rng.pick(&[0usize, 1, 2, 3, 4, 5, 8, 13, 40, 70]) }),
+        Kind::JoinAll | Kind::TryJoinAll => (Ctor::FromIter, if small { h.rng.range(0, 6) } else { *h.rng.pick(&[0usize, 1, 2, 3, 4, 5, 8, 13, 40, 64, 70, 128]) }),
         Kind::MergeB => (Ctor::FromIter, if cap > 40 && h.rng.chance(1, 2) { h.rng.range(0, 8) } else { cap.min(if small { 5 } else { 300 }) }),
         Kind::Fub | Kind::Fob => {
             if h.rng.chance(1, 6) {
@@ -1921,6 +1968,12 @@ fn run_history_once(p: &Params, hist_index: u64) -> HistResult {
     } else if kind == Kind::JoinAll && !h.allow_panics && h.rng.chance(1, 6) {
         // inputs with a zero-sized output: nothing to poison, but the length must be exact
         w.unit_join.set(true);
+    }
+    if p.prop == 6 && !p.no_panics && n_init >= 2 && matches!(ctor, Ctor::FromIter) && !kind.is_adapter() && h.rng.chance(1, 8) {
+        // the input iterator panics after it has handed over at least one future
+        let at = h.rng.range(1, n_init - 1);
+        w.iter_panic_at.set(Some(at));
+        h.iter_panics = true;
     }
     let ok = h.construct(kind, ctor, cap, n_init, start);
     let max_ops = p.max_ops.max(5);
